@@ -284,3 +284,82 @@ def unit_k1_witness():
                            replay={"verdict": "confirmed", "input": "CID with checks IsUnique id and IsUnique name; data 1,x / 2,x / 2,y", "expected": "row 3 accepted (the only earlier row with id 2 was rejected)", "observed": str(out[2])})]
         return [Result("C05/K-1 witness", "bounded", PASSED, "native", cases=1)]
     return NativeUnit("C05.witness.K-1", "replay of recorded finding K-1 (multi-check CIDs register keys of rows a later check rejects)", ["C05"], run, kind="bounded")
+
+
+# =====================================================================================================================
+# IsUniqueCheck.__init__: rule parsing at token level (C09, C05)
+# =====================================================================================================================
+import token as TK
+TOKEN5 = Tup(INT, STR)
+
+
+def unit_is_unique_init():
+    T5 = sort_of(TOKEN5); ttype = T5.accessor(0, 0); ttext = T5.accessor(0, 1)
+    def m_generated_tokens(ex, st, fn, args, kw):
+        it = Ref("TokenIter"); st.heap[it.oid] = {"cursor": 0}; st.ghost["iter"] = it
+        ex.obligations.append(Obligation("tokenizes-the-rule", st.pc, z3.BoolVal(args[0] is st.ghost["rule"]), "post", props=["C09"]))
+        yield st, it
+    def tok_next(ex, st, recv, args, kw):
+        o = st.heap[recv.oid]; T = st.ghost["T"]; c = lift(o["cursor"]).z
+        if lift(o["cursor"]).z is not None and st.ghost.get("may_fail") and not st.ghost.get("started"):
+            sb = st.copy(); sb.ghost["tok_failed"] = True; yield sb, Raise(ex.new_builtin_exc(sb, "TokenError", ["cannot tokenize"]))
+        st.ghost["started"] = True
+        if feasible(st.pc, c >= T.length):
+            sb = st.copy(); sb.pc.append(c >= T.length); yield sb, Raise(ex.new_builtin_exc(sb, "StopIteration", []))
+        st.pc.append(z3.And(c >= 0, c < T.length)); o["cursor"] = Sym(INT, c + 1)
+        yield st, Sym(TOKEN5, T.at(c))
+    def m_field_name_index(ex, st, fn, args, kw):
+        known = ex.absfun_s("is_declared_field", [z3.StringSort()], z3.BoolSort())(lift(args[0]).z)
+        for s2, b in ex.fork(st, Sym(BOOL, known)):
+            if b: yield s2, fresh(INT, "idx")[0]
+            else: yield from raise_new(ex, s2, "InterfaceError")
+    def m_set(ex, st, fn, args, kw): yield st, []
+    def setup(ex, st):
+        T, c = fresh(UFList(TOKEN5), "T"); st.pc.extend(c)
+        n = fresh(INT, "n")[0]; st.pc.append(n.z >= 0)      # tokens before the end marker
+        st.pc.append(T.length == n.z + 1); st.pc.append(ttype(T.at(n.z)) == TK.ENDMARKER)
+        j = z3.Int("j"); st.pc.append(z3.ForAll([j], z3.Implies(z3.And(0 <= j, j < n.z), ttype(T.at(j)) != TK.ENDMARKER)))
+        names, c2 = fresh(UFList(STR), "available"); st.pc.extend(c2); st.pc.append(names.length >= 1)
+        rule = fresh(STR, "rule")[0]
+        loc = Ref("Location"); st.heap[loc.oid] = loc_fields(fresh(INT, "line")[0], 0)
+        self = Ref("IsUniqueCheck"); st.heap[self.oid] = {}
+        st.frames[-1].env.update({"self": self, "description": "u", "rule": rule, "available_field_names": names, "location": loc})
+        st.ghost.update({"T": T, "n": n, "rule": rule, "this": self, "may_fail": True, "started": False, "dup": False})
+        def before_dup(ex_, s):
+            # the code found the current name among the names seen so far (each of which is an earlier even-position token, by the invariant)
+            env = s.frames[-1].env; u = env["unique_field_names"]; tv = lift(env["token_value"]).z; j = z3.Int("j!dup")
+            ex_.obligations.append(Obligation("duplicate-is-reported-only-for-a-name-seen-before", s.pc, z3.Exists([j], z3.And(0 <= j, j < u.length, u.at(j) == tv)) if isinstance(u, UFL) else z3.BoolVal(False), "post", props=["C09"]))
+            s.ghost["dup"] = True
+        ex.stmt_hooks_before["raise errors.InterfaceError('duplicate field name for unique check must be removed: %s' % token_value, self.location_of_rule)"] = before_dup
+    def is_name(t): return ttype(t) == TK.NAME
+    def is_comma(t): return z3.And(ttype(t) == TK.OP, ttext(t) == ",")
+    def declared(ex, t): return ex.absfun_s("is_declared_field", [z3.StringSort()], z3.BoolSort())(ttext(t))
+    def wf_upto(ex, st, k):
+        """tokens 0..k-1: names at even positions (declared, pairwise distinct), commas at odd positions"""
+        T = st.ghost["T"]; kk = lift(k).z; j = z3.Int("j!wf"); i = z3.Int("i!wf")
+        shape = z3.ForAll([j], z3.Implies(z3.And(0 <= j, j < kk), z3.If(j % 2 == 0, z3.And(is_name(T.at(j)), declared(ex, T.at(j))), is_comma(T.at(j)))))
+        distinct = z3.ForAll([i, j], z3.Implies(z3.And(0 <= i, i < j, j < kk, i % 2 == 0, j % 2 == 0), ttext(T.at(i)) != ttext(T.at(j))))
+        return Sym(BOOL, z3.And(shape, distinct))
+    def names_upto(ex, st, lst, k):
+        """lst == the names at the even positions below k, in order"""
+        T = st.ghost["T"]; kk = lift(k).z; j = z3.Int("j!nu")
+        if isinstance(lst, list): return Sym(BOOL, z3.And(z3.BoolVal(len(lst) == 0), kk <= 0))
+        return Sym(BOOL, z3.And(lst.length == (kk + 1) / 2, z3.ForAll([j], z3.Implies(z3.And(0 <= j, j < lst.length), lst.at(j) == ttext(T.at(2 * j))))))
+    def cursor(ex, st): return st.heap[st.ghost["iter"].oid]["cursor"]
+    def make(ctx):
+        c = Contract("checks.IsUniqueCheck.__init__", setup,
+                returns=[Clause("wf_upto(n) and n >= 1", "accepted-only-a-rule-of-declared-pairwise-distinct-field-names-separated-by-commas", props=["C09", "C05"]),
+                         Clause("names_upto(this._field_names_to_check, n)", "key-fields-are-the-named-fields-in-rule-order", props=["C09", "C05"]),
+                         Clause(lambda ex, st: Sym(BOOL, z3.BoolVal(isinstance(st.heap[st.ghost["this"].oid].get("_row_key_to_location_map"), dict) and not st.heap[st.ghost["this"].oid]["_row_key_to_location_map"])), "starts-with-an-empty-key-map", props=["C05", "C08"])],
+                raises={"InterfaceError": [Clause(lambda ex, st: Sym(BOOL, z3.Or(z3.BoolVal(bool(st.ghost["dup"]) or bool(st.ghost.get("tok_failed"))), z3.Not(z3.And(wf_upto(ex, st, st.ghost["n"]).z, G(st, "n") >= 1)))), "refused-only-if-the-rule-cannot-be-tokenized-is-not-such-a-list-or-repeats-a-name", props=["C09"])]},
+                loops={0: LoopSpec(invariants=["cursor() >= 1 and cursor() <= n + 1", "wf_upto(cursor() - 1)", "after_comma == ((cursor() - 1) % 2 == 0)", "names_upto(this._field_names_to_check, cursor() - 1)",
+                                               "names_upto(unique_field_names, cursor() - 1)", "next_token == T[cursor() - 1]"],
+                                   havoc={"next_token": TOKEN5, "token_type": INT, "token_value": STR, "after_comma": BOOL, "unique_field_names": UFList(STR), "this._field_names_to_check": UFList(STR), "iter.cursor": INT})},
+                expect=["return", "InterfaceError"], n_loops=1, raises_only_props=["C09", "C10"])
+        return {"contract": c, "callees": {"checks.generated_tokens": ModelContract(m_generated_tokens), "_tools.generated_tokens": ModelContract(m_generated_tokens), "ref:TokenIter.__next__": tok_next,
+                                           "fields.field_name_index": ModelContract(m_field_name_index), "builtin:set": m_set},
+                "spec_functions": {"wf_upto": wf_upto, "names_upto": names_upto, "cursor": cursor},
+                "assumptions": ["A-TOK: generated_tokens(rule) delivers a finite token sequence ending in exactly one ENDMARKER, or raises TokenError / SyntaxError at the first next()",
+                                "fields.field_name_index raises InterfaceError iff the name is not a declared field; the Python set of seen names is modelled as a list (membership and add only)",
+                                "a trailing comma ('id,') is accepted by the code; the statement does not forbid it, the contract does not either"]}
+    return ProofUnit("checks.IsUniqueCheck.__init__", "IsUniqueCheck.__init__: rule = declared, pairwise distinct field names separated by commas (token-level loop invariant)", ["C09", "C05", "C10"], make, None)
